@@ -57,7 +57,7 @@ func c12Roundtrip(p vbase.Params, r *vbase.Result) {
 	for i := 0; i < cases; i++ {
 		rng := vbase.NewRng(p.Seed, "C12", p.Shard, i)
 		scheme := Schemes[rng.Intn(3)]
-		n := []int{1, 4, 7}[rng.Intn(3)]
+		n := []int{1, 4, 7, 10, 13}[rng.Intn(5)] // >= 9 replicas: BLS bit fields longer than one byte
 		w := NewWorld(n, scheme, uint([]int{0, 10}[rng.Intn(2)]), core.WithAggregateQC())
 		q := w.Q()
 		rep := map[string]any{"case": i, "shard": p.Shard, "scheme": scheme, "n": n}
